@@ -2,6 +2,7 @@ package flowcontrol
 
 import (
 	"fmt"
+	"math"
 	"strings"
 	"sync"
 	"sync/atomic"
@@ -108,6 +109,12 @@ func (f *globalMaxInflight) SetState(instance string, requestId int64, current i
 
 	old := atomic.SwapInt32(&state.count, current)
 	delta := current - old
+	if delta > 0 && int64(atomic.LoadInt32(&f.count))+int64(delta) > math.MaxInt32 {
+		// the int32 running total would wrap around and make this (and every later) report look
+		// as if it were far below the limit: refuse it like any other increase that does not fit
+		atomic.StoreInt32(&state.count, old)
+		return false, old, nil
+	}
 	overflowed := f.add(delta)
 
 	if overflowed > 0 && delta > 0 {
